@@ -81,6 +81,15 @@ macro_rules! gated_publish {
                 w.gates.borrow_mut()[gid].read_done = true;
             }
             PayloadMode::Abandon => {}
+            PayloadMode::LateAll => {
+                w.gate_wait_read(gid).await;
+                w.ev(Ev::PayloadWait { gate: gid });
+                match $p.read_all().await {
+                    Ok(b) => w.ev(Ev::PayloadEnd { gate: gid, total: b.len(), digest: digest_bytes(&b), err: None }),
+                    Err(e) => w.ev(Ev::PayloadEnd { gate: gid, total: 0, digest: 0, err: Some(format!("{e:?}")) }),
+                }
+                w.gates.borrow_mut()[gid].read_done = true;
+            }
         }
         let outcome = match imm {
             Some(o) => o,
